@@ -169,40 +169,46 @@ def insertKV {κ : Type} [DecidableEq κ] (k : κ) (v : Nat) (l : List (κ × Na
 /-- builder.go:62 the key of the per-builder cache: `reflect.TypeOf(iFace).String()`; repaired: plus the variable -/
 def bkey (cfg : Cfg) (s : St) (v : Nat) : Nat × Nat := (s.vtyp v, if cfg.keyByVar then v + 1 else 0)
 
-/-- builder.go:62 `Interface`: reuse the cached mocker unless its context was canceled, else a fresh mocker with a
-    fresh `iface.NewContext()` -/
+/-- builder.go:73 a fresh `CachedInterfaceMocker` with a fresh `iface.NewContext()`, stored in `b.mockers[key]` -/
+def freshCM (cfg : Cfg) (s : St) (b v : Nat) : Nat × St :=
+  (s.ncm, { s with ctxs := upd s.ctxs s.nctx {}, nctx := s.nctx + 1,
+                   cms := upd s.cms s.ncm { var := v, typ := s.vtyp v, ctx := s.nctx }, ncm := s.ncm + 1,
+                   blds := upd s.blds b { s.blds b with mockers := insertKV (bkey cfg s v) s.ncm (s.blds b).mockers } })
+
+/-- builder.go:62 `Interface`: reuse the cached mocker unless its context was canceled -/
 def interfaceOf (cfg : Cfg) (s : St) (b v : Nat) : Nat × St :=
-  let key := bkey cfg s v
-  let fresh : Nat × St :=
-    (s.ncm, { s with ctxs := upd s.ctxs s.nctx {}, nctx := s.nctx + 1,
-                     cms := upd s.cms s.ncm { var := v, typ := s.vtyp v, ctx := s.nctx }, ncm := s.ncm + 1,
-                     blds := upd s.blds b { s.blds b with mockers := insertKV key s.ncm (s.blds b).mockers } })
-  match lookup key (s.blds b).mockers with
-  | some j => if (s.ctxs (s.cms j).ctx).canceled then fresh else (j, s)
-  | none => fresh
+  match lookup (bkey cfg s v) (s.blds b).mockers with
+  | some j => if (s.ctxs (s.cms j).ctx).canceled then freshCM cfg s b v else (j, s)
+  | none => freshCM cfg s b v
+
+/-- cache.go:167 a fresh `DefaultInterfaceMocker` for method `m`, stored in `mockers[m]` -/
+def freshMM (s : St) (j : Nat) (m : String) : Nat × St :=
+  (s.nmm, { s with mms := upd s.mms s.nmm { ctx := (s.cms j).ctx }, nmm := s.nmm + 1,
+                   cms := upd s.cms j { s.cms j with meths := insertKV m s.nmm (s.cms j).meths } })
 
 /-- cache.go:163 `CachedInterfaceMocker.Method` (after iface.go:79 `checkMethod` succeeded) -/
 def methodOf (s : St) (j : Nat) (m : String) : Nat × St :=
-  let fresh : Nat × St :=
-    (s.nmm, { s with mms := upd s.mms s.nmm { ctx := (s.cms j).ctx }, nmm := s.nmm + 1,
-                     cms := upd s.cms j { s.cms j with meths := insertKV m s.nmm (s.cms j).meths } })
   match lookup m (s.cms j).meths with
-  | some i => if (s.mms i).canceled then fresh else (i, s)
-  | none => fresh
+  | some i => if (s.mms i).canceled then freshMM s j m else (i, s)
+  | none => freshMM s j m
 
 /-- internal/proxy/interface.go:21 `Interface` for variable `v` of type `t` in context `c`; `cb` says whether a MakeFunc proxy
     is used.  `none`: index beyond `hack.MaxMethod`. -/
 def proxyInterface (cfg : Cfg) (s : St) (v t c : Nat) (m : String) (k : Nat) (cb : Cb) : Option St :=
   let idx := methodIndexOf (s.types t) m                                      -- :37
   if idx ≥ 999 then none else
-  let cx := s.ctxs c
-  -- :46 iface.BackUpTo — only the first time
-  let cx := if cx.backup.isNone then { cx with backup := some (v, s.vars v) } else cx
-  -- :49 GenCallableMethod: a fresh stub whose immediate is callback k
-  let cx := match cb with | .mk _ => { cx with proxyFunc := some k } | .clo => cx     -- make_interface.go:127
-  let cx := if cfg.retainAll then { cx with retained := k :: cx.retained } else cx    -- (repair of F9)
+  let cx0 := s.ctxs c
+  let cx : Ctx :=
+    { cache := cx0.cache,
+      -- :46 iface.BackUpTo (make_interface.go:100) — only the first time
+      backup := (match cx0.backup with | none => some (v, s.vars v) | some bk => some bk),
+      canceled := cx0.canceled,
+      -- :49 GenCallableMethod: a fresh stub whose immediate is callback k; make_interface.go:127 keeps the MakeFunc value
+      proxyFunc := (match cb with | .mk _ => some k | .clo => cx0.proxyFunc),
+      -- (repair of F9) every callback / MakeFunc value is retained
+      retained := if cfg.retainAll then k :: cx0.retained else cx0.retained }
   let s := { s with cbs := upd s.cbs k cb }
-  match lookup t cx.cache, cx.canceled with
+  match lookup t cx0.cache, cx0.canceled with
   | some f, false =>                                                            -- :52
     some { s with fakes := upd s.fakes f { data := c, fn := upd (s.fakes f).fn idx (.stub k) },
                   ctxs := upd s.ctxs c cx, vars := upd s.vars v (.fake f c) }
